@@ -375,6 +375,14 @@ class Compiler:
         except DeferredCycle as ex:
             self.report_cycle(ex, files_ast)
             raise reports.RecoverableError("Recursive definition")
+        except RecursionError:
+            # Values are resolved recursively: a long chain of definitions that refer to one another
+            # through nested operators can exhaust the interpreter's stack
+            reports.error(
+                "recursion-limit",
+                (files_ast[0].body.ctx_start, files_ast[0].body.ctx_end, "The definitions in this program refer to one another too deeply to be resolved within the interpreter's recursion limit.")
+            )
+            raise reports.RecoverableError("Definitions nested too deeply")
 
         return base, code
 
